@@ -70,6 +70,55 @@ Theorem C01_pmtiles_two_level :
 Proof. exact (two_level_lookup pm_arith_variant). Qed.
 Print Assumptions C01_pmtiles_two_level.
 
+(* the PMTiles writer's directory (as_directory / build_roots_leaves): for every leaf size > 0 the
+   leaves, in order, are exactly the sorted entry list (nothing dropped, nothing invented, no empty
+   leaf); the root it stores parses back to itself; and the reader's lookup through that root and
+   the leaves section returns, for every id of every run, the entry the writer was given *)
+From VT Require Import Model.PMWrite Proofs.PMTreeProofs Proofs.PMWriteProofs.
+Theorem C01_pmtiles_writer_leaves :
+  forall k es, (0 < k)%nat ->
+    concat (map fst (d_leaves (build_roots_leaves k es))) = es /\
+    Forall (fun l => l <> [] /\ (length l <= k)%nat) (map fst (d_leaves (build_roots_leaves k es))).
+Proof. exact writer_leaves_partition. Qed.
+Print Assumptions C01_pmtiles_writer_leaves.
+
+Theorem C01_pmtiles_writer_root :
+  forall k es, (0 < k)%nat -> runs_ok es -> Forall entry_ok es -> (N.of_nat (length es) <= 10000000000)%N ->
+    let d := build_roots_leaves k es in
+    (N.of_nat (length (d_leaves_bytes d)) + 1 < two64)%N ->
+    deserialize pm_arith_variant (serialize (d_root d)) = Ok (d_root d).
+Proof. exact (writer_root_parses pm_arith_variant). Qed.
+Print Assumptions C01_pmtiles_writer_root.
+
+Theorem C01_pmtiles_writer_lookup :
+  forall limit target ks es d extra,
+    Forall (fun k => (0 < k)%nat) ks -> runs_ok es -> Forall entry_ok es ->
+    Forall (fun e => (0 < e_len e)%N /\ (0 < e_run e)%N) es -> (N.of_nat (length es) <= 10000000000)%N ->
+    as_directory limit target ks es = Some d ->
+    forall e t, In e es -> (e_id e <= t < e_id e + e_run e)%N ->
+    pm_lookup pm_arith_variant (2 + extra) (read_leaf pm_arith_variant (d_leaves_bytes d)) (d_root d) t = Ok (Some e).
+Proof. exact (as_directory_lookup pm_arith_variant). Qed.
+Print Assumptions C01_pmtiles_writer_lookup.
+
+(* versatiles: the block definition the writer derives from a cell of the 256-grid
+   (BlockDefinition::new) is well formed, so its 33 bytes read back to the same block coordinate,
+   coverage and byte ranges (C16_block_definition_bytes) *)
+From VT Require Import Model.VTBytes Proofs.VTBytesProofs.
+Theorem C01_versatiles_block_definition :
+  forall z gx0 gy0 gx1 gy1 toff tlen ilen,
+    (z <= 31)%N -> (gx0 <= gx1)%N -> (gy0 <= gy1)%N -> (gx1 <= 2 ^ z - 1)%N -> (gy1 <= 2 ^ z - 1)%N ->
+    (gx0 / 256 = gx1 / 256)%N -> (gy0 / 256 = gy1 / 256)%N -> (toff + tlen <= u64_max)%N -> (ilen <= u32_max)%N ->
+    let n := bdef_new z gx0 gy0 gx1 gy1 in
+    let b := mkBD (bd_z n) (bd_x n) (bd_y n) (bd_cx0 n) (bd_cy0 n) (bd_cx1 n) (bd_cy1 n) gx0 gy0 gx1 gy1 toff tlen (toff + tlen) ilen in
+    exists l, bdef_as_blob b = Ok l /\ length l = 33%nat /\ bdef_from_blob l = Ok b.
+Proof.
+  intros z gx0 gy0 gx1 gy1 toff tlen ilen Hz Hx Hy Hxm Hym Hbx Hby Hsum Hil n b. apply bdef_roundtrip.
+  pose proof (bdef_new_wf z gx0 gy0 gx1 gy1 Hz Hx Hy Hxm Hym Hbx Hby) as W. unfold bdef_wf in *. subst n b. cbn in *.
+  destruct W as (W1 & W2 & W3 & W4 & W5 & W6 & W7 & W8 & W9 & W10 & W11 & W12 & W13 & W14 & W15 & _).
+  repeat split; try assumption; reflexivity.
+Qed.
+Print Assumptions C01_versatiles_block_definition.
+
 (* tar / directory: the member name `z/x/y<.format>[.gz|.br]` the writers produce is read back to the
    same coordinate, format (all ten) and compression, for every coordinate a tile can have *)
 Theorem C01_member_names :
@@ -91,3 +140,14 @@ Example C01_example_dir :
   let es := [mkE 3 0 10 1; mkE 4 10 7 1; mkE 9 100 5 1]%N in
   runs_ok es /\ Forall entry_ok es /\ nondec 0 es /\ deserialize pm_arith_variant (serialize es) = Ok es.
 Proof. cbn. repeat split; try lia; repeat constructor; unfold entry_ok, two64; cbn; try lia. Qed.
+
+(* a directory of five entries cut into leaves of two: three leaves, three pointers, every id found *)
+Example C01_example_writer :
+  let es := [mkE 3 0 10 1; mkE 4 10 7 2; mkE 9 100 5 1; mkE 12 105 5 3; mkE 40 7 1 1]%N in
+  let d := build_roots_leaves 2 es in
+  runs_ok es /\ map fst (d_leaves d) = [[mkE 3 0 10 1; mkE 4 10 7 2]; [mkE 9 100 5 1; mkE 12 105 5 3]; [mkE 40 7 1 1]]%N /\
+  map e_id (d_root d) = [3; 9; 40]%N /\
+  pm_lookup 1 3 (read_leaf 1 (d_leaves_bytes d)) (d_root d) 14 = Ok (Some (mkE 12 105 5 3)) /\
+  pm_lookup 1 3 (read_leaf 1 (d_leaves_bytes d)) (d_root d) 15 = Ok None /\
+  as_directory 16384 20 [1; 2]%nat es = Some (build_roots_leaves 2 es).
+Proof. cbn [runs_ok e_id e_run]. repeat split; try lia; vm_compute; reflexivity. Qed.
